@@ -134,10 +134,55 @@ def table():
     return T
 
 
+def _relabel_dvid(model, a, b):
+    """gives one dependent variable another DVID value (models with several DVs): the generated $ERROR must
+    select Y by the DVID values the model declares, not by position"""
+    dvs = model.dependent_variables
+    if len(dvs) < 2:
+        raise ValueError('model has one dependent variable')
+    keys = list(dvs.keys())
+    y = keys[a % len(keys)]
+    new = [3, 4, 5, 7][b % 4]
+    if new in set(dvs.values()):
+        raise ValueError('DVID value in use')
+    return model.replace(dependent_variables=dvs.replace(y, new)).update_source()
+
+
+def _declare_dv(model, a, b):
+    """declares a variable of the error model as a further dependent variable with a DVID value that need not
+    be the next ordinal (what add_metabolite / add_effect_compartment / set_tmdd(dv_types=...) do with their
+    own variables)"""
+    from pharmpy.basic import Expr
+    from pharmpy.model import Assignment
+
+    dvs = model.dependent_variables
+    sts = model.statements
+    after = sts.after_odes if sts.ode_system is not None else sts
+    cands = [s_.symbol for s_ in after if isinstance(s_, Assignment) and s_.symbol not in dvs and str(s_.symbol) != 'F']
+    cands = [c for i, c in enumerate(cands) if c not in cands[:i]]
+    if not cands:
+        raise ValueError('no variable to declare as dependent variable')
+    new = [2, 3, 4, 6][b % 4]
+    if new in set(dvs.values()):
+        raise ValueError('DVID value in use')
+    ynew = Expr.symbol('Y_NEW')
+    if ynew in sts.free_symbols:
+        raise ValueError('Y_NEW exists')
+    stmt = Assignment.create(ynew, Expr(cands[a % len(cands)]) * 2)
+    return model.replace(statements=sts + stmt, dependent_variables=dvs.replace(ynew, new)).update_source()
+
+
+# steps added after the first findings were recorded: addressed by 100 + index so that the recorded specs
+# (step number modulo len(table())) keep their meaning
+EXTRA = [
+    ('relabel_dvid', _relabel_dvid),
+    ('declare_dv', _declare_dv),
+]
+
 SPEC = st.fixed_dictionaries(
     dict(
         start=st.integers(0, len(STARTS) - 1),
-        steps=st.lists(st.tuples(st.integers(0, 40), st.integers(0, 10), st.integers(0, 10)).map(list), min_size=1, max_size=5),
+        steps=st.lists(st.tuples(st.one_of(st.integers(0, 40), st.integers(0, 40), st.integers(0, 40), st.integers(0, 40), st.integers(0, 40), st.integers(0, 40), st.integers(100, 100 + len(EXTRA) - 1)), st.integers(0, 10), st.integers(0, 10)).map(list), min_size=1, max_size=5),
         k=st.integers(0, 50),
     )
 )
@@ -434,7 +479,7 @@ def run_case(spec):
     cols0 = list(model.datainfo.names)
     last = None
     for fi, a, b in spec['steps'][:5]:
-        name, fn = T[fi % len(T)]
+        name, fn = EXTRA[(fi - 100) % len(EXTRA)] if fi >= 100 else T[fi % len(T)]
         try:
             with warnings.catch_warnings():
                 warnings.simplefilter('ignore')
@@ -473,7 +518,12 @@ def run_case(spec):
     try:
         with warnings.catch_warnings():
             warnings.simplefilter('ignore')
-            path = os.path.join(d, 'run1.mod')
+            # file and directory names with a blank need quoting in $DATA
+            sub_, fn_ = [('', 'run1.mod'), ('', 'run 2.mod'), ('model dir', 'run1.mod'), ('', 'run1.mod')][spec['k'] % 4]
+            if sub_:
+                os.makedirs(os.path.join(d, sub_), exist_ok=True)
+            path = os.path.join(d, sub_, fn_)
+            classes.append('write:blank-in-path' if ' ' in sub_ + fn_ else 'write:plain-path')
             where = f'@{applied[-1]}'
             try:
                 guard(pm.write_model, model, path, force=True, allowed=(), clause='write_model')
@@ -592,13 +642,20 @@ CANONICAL = [
     ('mox2', [('add_peripheral_compartment', 0, 0), ('add_peripheral_compartment', 0, 0), ('remove_peripheral_compartment', 0, 0)]),
     ('pheno_advan3', [('set_first_order_absorption', 0, 0), ('add_lag_time', 0, 0)]),
     ('mox_2comp', [('set_zero_order_elimination', 0, 0), ('set_first_order_absorption', 0, 0)]),
+    ('pheno', [('add_metabolite', 0, 0), ('relabel_dvid', 1, 1)]),
+    ('basic_oral_nm', [('add_effect_compartment', 0, 0), ('relabel_dvid', 1, 0), ('relabel_dvid', 0, 2)]),
+    ('pheno_real', [('add_metabolite', 0, 0), ('relabel_dvid', 0, 3), ('add_peripheral_compartment', 0, 0)]),
+    ('pheno_real', [('declare_dv', 0, 2)]),
+    ('mox2', [('declare_dv', 1, 1), ('add_peripheral_compartment', 0, 0)]),
+    ('basic_oral_nm', [('declare_dv', 0, 0)]),
 ]
 
 
 def canonical_specs(tier):
     names = [n for n, _ in table()]
     for start, steps in CANONICAL:
-        yield dict(start=STARTS.index(start), steps=[[names.index(fn), a, b] for fn, a, b in steps], k=3)
+        xn = [n for n, _ in EXTRA]
+        yield dict(start=STARTS.index(start), steps=[[100 + xn.index(fn) if fn in xn else names.index(fn), a, b] for fn, a, b in steps], k=3)
 
 
 # ------------------------------------------------------------------------------------------
@@ -757,4 +814,18 @@ def _pred_generated_empty_branch(spec):
         return False
 
 
-KNOWN_PREDICATES = {'generated_empty_branch': _pred_generated_empty_branch}
+_DV_STEPS = {'add_metabolite', 'add_effect_compartment', 'relabel_dvid', 'declare_dv'}
+
+
+def _pred_second_dv_update(spec):
+    """the history changes the dependent variables at least twice (steps that add a dependent variable or give
+    one another DVID): the second change is the one that is not written"""
+    T = table()
+    n = 0
+    for fi, a, b in spec.get('steps', [])[:5]:
+        name = EXTRA[(fi - 100) % len(EXTRA)][0] if fi >= 100 else T[fi % len(T)][0]
+        n += name in _DV_STEPS
+    return n >= 2
+
+
+KNOWN_PREDICATES = {'generated_empty_branch': _pred_generated_empty_branch, 'second_dv_update': _pred_second_dv_update}
